@@ -9,7 +9,7 @@ TECH = "deterministic simulation with fault injection: seeded search over operat
 CHECKS = {
     "C02": dict(
         level="exploration",
-        text="Seeded deterministic simulation of every hash context type (30 variants incl. keyed/odd-size/dynamic BLAKE2): up to 4 forked handles, scheduler-chosen interleaving of update/update_mut/fork/reset/reset_with_key/finalize_reset/finalize with block-boundary fragmentation and misaligned slices; every finalize and every still-live handle at end of run is compared with the library's own one-call digest of the model's byte log. All sequences of <=3 boundary operations per variant are enumerated first; the deciding step is the random search (1.5M runs quick, 100M thorough). The same split / clone / finalize-and-reset statement is also run on contexts whose BLAKE2 byte counter or SHA-1/SHA-2/RIPEMD-160 length counter was preset through hooks H1/H4 next to a word boundary (scenarios ctrwrap, lenwrap: fragmented history vs one call under the same preset), a state real data only reaches after 2^29..2^64 bytes. BLAKE2 const-size contexts are constructed through both documented routes (Context::new[_keyed] and the Blake2b/Blake2s marker types). Sampling, not proof.",
+        text="Seeded deterministic simulation of every hash context type (30 variants incl. keyed/odd-size/dynamic BLAKE2): up to 4 forked handles, scheduler-chosen interleaving of update/update_mut/fork/reset/reset_with_key/finalize_reset/finalize with block-boundary fragmentation and misaligned slices; every finalize and every still-live handle at end of run is compared with the library's own one-call digest of the model's byte log. All sequences of <=3 boundary operations per variant are enumerated first; the deciding step is the random search (1.5M runs quick, 100M thorough). The same split / clone / finalize-and-reset statement is also run on contexts whose BLAKE2 byte counter or SHA-1/SHA-2/RIPEMD-160 length counter was preset through hooks H1/H4 next to a word boundary (scenarios ctrwrap, lenwrap: fragmented history vs one call under the same preset), a state real data only reaches after 2^29..2^64 bytes. In a quarter of the BLAKE2 runs a call the API refuses (finalize_reset[_with_key]_at into a wrong-size buffer, an over-long key) is made on the live context and the history goes on: the digest must still depend only on the bytes fed (a later call may fail loudly, never return a wrong digest). BLAKE2 const-size contexts are constructed through both documented routes (Context::new[_keyed] and the Blake2b/Blake2s marker types). Sampling, not proof.",
         ref="DESIGN.md §4.1",
         note="Trusted: the harness (PRNG, byte-log model, shrinker) and the library's one-call digest path as ground truth (a consistently wrong digest is C01's business, deliberately). Real code: all cryptoxide::hashing contexts.",
         technique=TECH + "; oracle = one-call digest of the model log",
@@ -23,7 +23,7 @@ CHECKS = {
     ),
     "C04": dict(
         level="exploration",
-        text="streampos: up to 4 forked handles of one stream-cipher context, scheduler-chosen process (into a dirty destination), process_mut, fork, seek (0, mid-range, 2^32-1, from mid-block) and apply-twice; every output must be input XOR the one-call stream of a fresh context at the model's absolute position (far seeks: fresh-context seek plus adjacent-seek consistency; wrap past 2^32 blocks must land on block 0). drg: request sequences bytes<N>/fill_bytes<N>/fill_slice/u32/u64 into destinations pre-filled with PRNG garbage; outputs must be the successive bytes of the specified ChaCha keystream for that seed (independent block-function model, all-zero nonce, from block 0). 1M+1M runs quick, 60M+60M thorough.",
+        text="streampos: up to 4 forked handles of one stream-cipher context, scheduler-chosen process (into a dirty destination), process_mut, fork, seek (0, mid-range, 2^32-1, from mid-block) and apply-twice, and in a quarter of the runs a refused call (process with mismatched buffer lengths, after which the position must be unchanged); every output must be input XOR the one-call stream of a fresh context at the model's absolute position (far seeks: fresh-context seek plus adjacent-seek consistency; wrap past 2^32 blocks must land on block 0). drg: request sequences bytes<N>/fill_bytes<N>/fill_slice/u32/u64 into destinations pre-filled with PRNG garbage; outputs must be the successive bytes of the specified ChaCha keystream for that seed (independent block-function model, all-zero nonce, from block 0). 1M+1M runs quick, 60M+60M thorough.",
         ref="DESIGN.md §4.3",
         note="streampos uses self-referential ground truth on purpose (the library's own one-call stream: the clause is about position semantics, and a wrong-but-consistent cipher trips C03); the DRG clause names the ChaCha keystream itself, so drg is judged against the independent model. u32/u64 byte order is not part of the property: either reading is accepted.",
         technique=TECH + "; oracle = one-call stream of a fresh context at the model position",
@@ -44,7 +44,7 @@ CHECKS = {
     ),
     "C07": dict(
         level="fault_enumeration",
-        text="Channel fault injection between a real sender and real receivers: for every sampled honest (key, nonce, aad, ciphertext, tag) the complete catalogue of alterations is enumerated (all 128 tag bits, all 96 nonce bits, every bit of components <=64 bytes and sampled bits beyond, truncation/extension by 1/15/16 with zeros and garbage, moving bytes across the AAD/ciphertext boundary both ways, swapping AAD and ciphertext, swapping the two length roles, replay under another nonce, zero tag, tag of another message), each delivered to a fresh one-shot receiver AND a fresh incremental receiver with random fragmentation. Verdict oracle: accept iff the delivered tag equals the independent model's RFC 8439 tag of exactly the delivered inputs; both receivers must agree. ~790 deliveries per run; 20k runs quick, 1.5M thorough.",
+        text="Channel fault injection between a real sender and real receivers: for every sampled honest (key, nonce, aad, ciphertext, tag) the complete catalogue of alterations is enumerated (all 128 tag bits, all 96 nonce bits, every bit of components <=64 bytes and sampled bits beyond, truncation/extension by 1/15/16 with zeros and garbage, moving bytes across the AAD/ciphertext boundary both ways, swapping AAD and ciphertext, swapping the two length roles, replay under another nonce, zero tag, tag of another message), each delivered to a fresh one-shot receiver AND a fresh incremental receiver with random fragmentation (pieces up to the whole remainder, messages up to 70 KiB in 1 run of 120; in about one delivery of eight the incremental receiver first has a call refused - buffer-to-buffer decrypt with a mismatched output length - and goes on with the same object). Verdict oracle: accept iff the delivered tag equals the independent model's RFC 8439 tag of exactly the delivered inputs; both receivers must agree. ~790 deliveries per run; 20k runs quick, 1.5M thorough.",
         ref="DESIGN.md §4.6",
         note="The catalogue is enumerated completely per sampled message (fault_enumeration); the messages themselves are sampled. Trusted: independent tag model.",
         technique=TECH + "; channel-fault catalogue enumerated per sampled message, oracle = independent tag model",
@@ -58,9 +58,9 @@ CHECKS = {
     ),
     "C09": dict(
         level="exploration",
-        text="Three-state lifecycle model (absorbing / done / retired) per handle for Poly1305, Hmac over 18 digests, legacy BLAKE2b/BLAKE2s through Mac (keyed and unkeyed) and the 18 legacy digest wrappers: scheduler-chosen input, result, raw_result, reset, reset_with_key, fork over up to 3 handles, with the misuse faults 'result again' and 'input after result' injected in half of the runs. Oracles: first result == a fresh object of the same type and key fed the same bytes in one call (and == the one-call hash for digest wrappers); second result == first or a loud failure; input after result must fail loudly; reset keeps the key. 1M runs quick, 80M thorough.",
+        text="Three-state lifecycle model (absorbing / done / retired) per handle for Poly1305, Hmac over 18 digests, legacy BLAKE2b/BLAKE2s through Mac (keyed and unkeyed) and the 18 legacy digest wrappers: scheduler-chosen input, result, raw_result, reset, reset_with_key, fork over up to 3 handles, with the misuse faults 'result again' and 'input after result' injected in half of the runs. Oracles: first result == a fresh object of the same type and key fed the same bytes in one call (and == the one-call hash for digest wrappers, == the static one-call function for keyed legacy BLAKE2); second result == first or a loud failure; input after result and result into a wrong-size buffer must fail loudly; reset keeps the key. After a call that was refused loudly the history goes on with the same object and an unchanged model: later calls may fail loudly (the handle is then retired) but a call that returns must return the right value. 1M runs quick, 80M thorough.",
         ref="DESIGN.md §4.8",
-        note="Self-referential ground truth ('behaves like a freshly constructed one'). A handle whose call panicked is retired (no promise about unwound objects). Keyed legacy BLAKE2 is driven through Mac only (Digest::reset on a keyed object is documented as 'state after new').",
+        note="Self-referential ground truth ('behaves like a freshly constructed one'). A refused call does not end the history: 'no history makes an object return a value that is not the MAC or digest of the bytes fed' includes histories with refused calls; what is tolerated after a refusal is a loud failure, never a wrong value. Keyed legacy BLAKE2 is driven through Mac only (Digest::reset on a keyed object is documented as 'state after new').",
         technique=TECH + "; oracle = lifecycle state machine + fresh object fed in one call",
     ),
     "C14": dict(
